@@ -13,6 +13,8 @@ EXPLANATION = (
     "p = k/(i+1): skip_until is the index of the next accepted item."
     " R05-gap-init: some drawn store to skip_until lies outside the region dominated by the guard that reads it (otherwise the first gap-phase item is decided by the constructor's constant). The sampler's clear() is checked with C19's rule (phase state kept across clear() makes the next stream non-uniform)."
 )
+from .common import NEW_WRITERS_NOTE as _NWN
+EXPLANATION = EXPLANATION + _NWN % "05"
 NOT_DECIDED = ("(1) the item at the phase switch: which definition of skip_until (the 0 from new/clear or a drawn gap) reaches the guard on the "
                "first gap-phase call is a fact about the history of i, not about a path of add — today the 0 reaches it, so stream position "
                "4k is always accepted; recorded in DESIGN section 6, left to a dynamic technique. (2) the size of the inherent gap-sampling bias.")
@@ -22,6 +24,8 @@ RS = "reservoirsampling::ReservoirSampling"
 
 
 def run(ctx):
+    from .common import check_new_writers
+    check_new_writers(ctx, "R05-new-writers", ['reservoirsampling::ReservoirSampling'])
     prog = ctx.prog
     add = ctx.anchor(RS + "::add")
     if add is None:
